@@ -172,7 +172,7 @@ pub fn generate_live(prop: &str, seed: u64, tier: &str, out: &mut dyn std::io::W
     let offsets: &[u64] = if tier == "thorough" { &[0, 8, 16, 1024, 2040, 2048, 2056, 3000, 4080, 4088] } else { &[0, 8, 2040, 2048, 2056, 4088] };
     let mut idx = 0u64;
     for &x in offsets {
-        for variant in 0..(if tier == "thorough" { 4 } else { 2 }) {
+        for variant in 0..(if tier == "thorough" { 6 } else { 3 }) {
             let mut r = Rng::for_case(seed, 606, idx);
             let adj = (k + 4096 - x) % 4096;
             let nblock = *r.pick(&[22usize, 24, 30]);
@@ -215,7 +215,22 @@ pub fn generate_live(prop: &str, seed: u64, tier: &str, out: &mut dyn std::io::W
                     cfg.blamed = late.tid;
                     cfg.crash = Some(c);
                 }
-            } else {
+            }
+            if prop == "C06" {
+                // the other options that look at the captured copy: skipping (the copy is scanned first) and sanitizing
+                let mut r3 = Rng::for_case(seed, 609, idx);
+                match r3.below(3) {
+                    0 => cfg.principal = Some(*r3.pick(&[t.read_u64(bt.regs_addr + 88), t.desc["shared"].as_u64().unwrap(), t.desc["regions"][0]["addr"].as_u64().unwrap() + 64])),
+                    1 => cfg.sanitize = true,
+                    _ => {}
+                }
+            }
+            if prop == "C20" {
+                // (a size limit as well, in some cases: late threads' stacks are then shortened before they are scanned)
+                let mut r3 = Rng::for_case(seed, 610, idx);
+                if r3.chance(1, 2) {
+                    cfg.limit = Some(*r3.pick(&[1u64, 200_000]));
+                }
                 // C20: principal mapping = the code the threads block in (every IP is inside) or the
                 // shared page (only referenced through pointers that some threads hold on their stack)
                 let rip = t.read_u64(bt.regs_addr + 88);
